@@ -54,6 +54,8 @@ def go_t(t):
         return "*" + go_t(t[1])
     if k == "arr":
         return "[]" + go_t(t[1])
+    if k == "arrn":
+        return "[3]" + go_t(t[1])
     if k == "map":
         return "map[%s]%s" % (go_t(t[1]), go_t(t[2]))
     if k == "func":
@@ -77,6 +79,8 @@ def coq_t(t):
         return "(TStar %s)" % coq_t(t[1])
     if k == "arr":
         return "(TArr %s)" % coq_t(t[1])
+    if k == "arrn":
+        return "(TArrN %s)" % coq_t(t[1])
     if k == "map":
         return "(TMap %s %s)" % (coq_t(t[1]), coq_t(t[2]))
     if k == "func":
@@ -149,7 +153,7 @@ class Method:
         elif self.doc[0] == "bad":
             d = "MDBad"
         else:
-            d = "(MDReq %s)" % cs(self.doc[2])
+            d = "(MDReq %s %s)" % (cs(self.doc[1]), cs(self.doc[2]))
         return "IMethod %s %s %s %s" % (cs(self.name), d, clist(p.coq() for p in self.params),
                                         clist(p.coq() for p in self.results))
 
@@ -405,9 +409,16 @@ FILES = ["a.go", "b.go", "model.go", "types_x.go", "zz.go", "m1.go", "api.go", "
 INT_KINDS = ["int", "int8", "int16", "int32", "int64", "uint", "uint8", "uint16", "uint32", "uint64"]
 UFIELDS = [("id", tid("int")), ("name", tid("string")), ("note", tid("string")), ("count", tid("int64")),
            ("price", tid("float64")), ("tags", ("arr", tid("string"))), ("meta", ("map", tid("string"), tid("int"))),
-           ("ok", tid("bool")), ("ttl", tsel("time", "Duration")), ("ref", tstar(tid("int")))]
+           ("ok", tid("bool")), ("ttl", tsel("time", "Duration")), ("ref", tstar(tid("int"))),
+           # universe-scoped names, directly and below every type constructor
+           ("cause", tid("error")), ("errs", ("arr", tid("error"))), ("perr", tstar(tid("error"))),
+           ("byKey", ("map", tid("string"), tid("error"))), ("anyv", tid("any")), ("anys", ("arr", tid("any")))]
 EFIELDS = [("ID", tid("int")), ("Name", tid("string")), ("Title", tid("string")), ("Amount", tid("float64")),
-           ("Labels", ("arr", tid("string"))), ("Active", tid("bool"))]
+           ("Labels", ("arr", tid("string"))), ("Active", tid("bool")),
+           ("Errs", ("arr", tid("error"))), ("Cause", tstar(tid("error"))), ("ErrBy", ("map", tid("string"), tid("error"))),
+           ("Any", tid("any")), ("Anys", ("arr", tid("any"))), ("PAny", tstar(tid("any"))),
+           ("Nested", ("arr", ("arr", tid("error")))), ("ErrKey", ("map", tid("error"), tid("int"))),
+           ("ErrArr", ("arrn", tid("error"))), ("AnyArr", ("arrn", tid("any")))]
 
 DOC_GET = ["//shoot: get", "// shoot: get", "//shoot: new;get", "//Shoot: GET", "//shoot: get;"]
 DOC_SET = ["//shoot: set", "// shoot: set", "//shoot: new;set"]
@@ -550,16 +561,23 @@ def _err():
     return Param([], tid("error"))
 
 
+BODY_VERBS = ("POST", "PUT", "PATCH")
+
+
 def rest_method(rng, k, structs):
+    """a valid method: POST/PUT/PATCH carry exactly one struct parameter, GET/DELETE at most one map"""
     verb = rng.choice(VERBS)
+    if verb.upper() in BODY_VERBS and not structs:
+        verb = rng.choice(["Get", "Delete", "GET"])
     name = "M%d" % k
     path = rng.choice(['"/items"', '"/items/{id}"', "/plain/path", '"/a/{id}/b/{name}"'])
     params = [_ctx()] if rng.random() < 0.8 else []
     pool = [Param(["id"], tid("int")), Param(["name"], tid("string")), Param(["q"], ("map", tid("string"), tid("string"))),
             Param(["p"], tstar(tid("int"))), Param(["a", "b"], tid("int")), Param([], tid("int")),
-            Param(["e"], tid("error")), Param(["u"], tid("Undefined9"))]
+            Param(["e"], tid("error")), Param(["u"], tid("Undefined9")), Param(["pe"], tstar(tid("error"))),
+            Param(["av"], tid("any")), Param(["pa"], tstar(tid("any")))]
     params += rng.sample(pool, rng.randint(0, 2))
-    if structs and rng.random() < 0.5:
+    if verb.upper() in BODY_VERBS or (structs and rng.random() < 0.4):
         s = rng.choice(structs)
         params.append(Param(["req"], tstar(tid(s)) if rng.random() < 0.5 else tid(s)))
     elif rng.random() < 0.15:
@@ -567,9 +585,17 @@ def rest_method(rng, k, structs):
     results = [_resp(), _err()]
     if rng.random() < 0.6:
         first = rng.choice([tstar(tid(structs[0])) if structs else tstar(tid("int")), ("arr", tid("string")),
-                            ("map", tid("string"), tid("int")), tstar(tid("string"))])
+                            ("map", tid("string"), tid("int")), tstar(tid("string")), ("arr", tid("error")),
+                            tstar(tid("error")), ("map", tid("string"), tid("any")), ("arr", tid("any")), tstar(tid("any"))])
         results = [Param([], first)] + results
-    return Method(name, ("req", verb, path), params, results)
+    m = Method(name, ("req", verb, path), params, results)
+    if any(not p.names for p in params):
+        # unnamed parameters are not inspected at all: a body verb would find no body parameter
+        if verb.upper() in BODY_VERBS:
+            for i, p in enumerate(params):
+                if not p.names:
+                    p.names = ["n%d" % i]
+    return m
 
 
 def rest_iface(rng, name, structs, nmeth=None):
@@ -593,9 +619,10 @@ def base_rest(rng):
             structs.append(n2)
         f.structs = structs
     names = rng.sample(IFACES, rng.randint(1, 2))
+    allstructs = [x for f in c.files for x in f.structs]
     for n in names:
         f = rng.choice(c.files)
-        f.decls.append(("type", [rest_iface(rng, n, f.structs)]))
+        f.decls.append(("type", [rest_iface(rng, n, f.structs if rng.random() < 0.5 else allstructs)]))
     if rng.random() < 0.3:
         rng.choice(c.files).decls.append(("type", [TSpec("Plain", ("iface", [Method("Foo", None, [], [Param([], tid("int"))])]))]))
     c.flagpool = []
@@ -618,7 +645,7 @@ def map_struct_pair(rng, name, shootnew=False):
                            {"text": "\tt.name = v\n"})),
         ]
         return src, dst, extra
-    pool = rng.sample(EFIELDS, rng.randint(1, 4))
+    pool = rng.sample(EFIELDS, rng.randint(1, 6))
     sf = [Field([n], t, tag=rng.choice([None, None, 'map:"-"', 'json:"x"'])) for n, t in pool]
     df = [Field([n], (tid("int64") if t == tid("int") and rng.random() < 0.3 else t)) for n, t in pool]
     if rng.random() < 0.3:
@@ -770,7 +797,10 @@ def add_generate_line(rng, c):
         if rng.random() < 0.1:
             args = args[:-1] + ["-zzz"]          # a stale line: does not end with the command line
         line = "//go:generate " + rng.choice(["", "", "go run github.com/lopolopen/shoot/cmd/"]) + "shoot " + " ".join(args)
-        f = rng.choice(c.files)
+        srcs = [f for f in c.files if f.raw is None]
+        if not srcs:
+            return
+        f = rng.choice(srcs)
         f.decls.insert(rng.randint(0, len(f.decls)), ("comment", line))
 
 
@@ -929,7 +959,7 @@ def d_rest_param(rng, c):
     f, t = rest_target(rng, c)
     m = rng.choice(rest_methods(t))
     bad = rng.choice([("arr", tid("int")), ("func",), ("chan", tid("int")), ("ell", tid("string")), ("gen", "Page", tid("int")),
-                      ("lit",), tstar(("arr", tid("int")))])
+                      ("lit",), tstar(("arr", tid("int"))), ("arrn", tid("int")), ("arr", tid("error")), tstar(("arrn", tid("any")))])
     named = rng.random() < 0.85
     m.params.append(Param(["x"] if named else [], bad))
     if not named:
@@ -941,8 +971,27 @@ def d_rest_param(rng, c):
 def d_rest_results(rng, c):
     f, t = rest_target(rng, c)
     m = rng.choice(rest_methods(t))
-    k = rng.choice(["few0", "few1", "many", "second", "last", "named", "rettype", "rettype2"])
+    k = rng.choice(["few0", "few1", "many", "second", "last", "named", "rettype", "rettype2", "grouped", "grouped", "grouped"])
     S = tstar(tid("string"))
+    HR = tstar(tsel("http", "Response"))
+    E = tid("error")
+    if k == "grouped":
+        # one *ast.Field may declare several results: the number of fields and the number of values differ
+        m.results = rng.choice([
+            [Param(["a", "b"], E)],
+            [Param(["first", "second"], HR)],
+            [Param(["a", "b"], HR), Param(["err"], E)],
+            [Param(["r"], HR), Param(["e1", "e2"], E)],
+            [Param(["x", "y"], S), Param(["h"], HR), Param(["err"], E)],
+            [Param(["x"], S), Param(["h1", "h2"], HR), Param(["err"], E)],
+            [Param(["x"], S), Param(["h"], HR), Param(["e1", "e2"], E)],
+            [Param(["a", "b", "c"], E)],
+            [Param(["a", "b"], S), Param(["c", "d"], HR)],
+            [Param(["a"], S), Param(["b"], S), Param(["h"], HR), Param(["e1", "e2"], E)],
+            [Param(["h"], HR), Param(["err"], E)],
+            [Param(["a", "b"], E), Param(["c"], E)],
+        ])
+        return t.name
     if k == "few0":
         m.results = []
     elif k == "few1":
@@ -957,7 +1006,8 @@ def d_rest_results(rng, c):
     elif k == "named":
         m.results = [Param(["r"], S), Param(["h"], tstar(tsel("http", "Response"))), Param(["err"], tid("error"))]
     elif k == "rettype":
-        m.results = [Param([], rng.choice([tid("int"), tid("string"), tsel("time", "Duration"), ("func",), ("chan", tid("int"))])),
+        m.results = [Param([], rng.choice([tid("int"), tid("string"), tsel("time", "Duration"), ("func",), ("chan", tid("int")),
+                                           ("arrn", tid("string")), ("arrn", tid("error")), tid("error"), tid("any")])),
                      _resp(), _err()]
     else:
         ss = getattr(f, "structs", [])
@@ -987,6 +1037,37 @@ def d_rest_ambiguous(rng, c):
         m.params.append(Param(["b1", "b2"], a))
     else:
         m.params += [Param(["b1"], a), Param(["b2"], b)]
+    return t.name
+
+
+def d_rest_needs_body(rng, c):
+    f, t = rest_target(rng, c)
+    m = rng.choice(rest_methods(t))
+    m.doc = ("req", rng.choice(["Post", "PUT", "patch"]), m.doc[2])
+    ss = [x for g in c.files for x in getattr(g, "structs", [])]
+    k = rng.choice(["drop", "scalar", "unnamed", "map"])
+    def is_struct_param(p):
+        b = p.typ[1] if p.typ[0] == "star" else p.typ
+        return (b[0] == "id" and b[1] in ss) or (b[0] == "sel" and b[1] != "context")
+    m.params = [p for p in m.params if not is_struct_param(p)]
+    if k == "scalar":
+        m.params.append(Param(["n"], tid("int")))
+    elif k == "map":
+        m.params.append(Param(["mm"], ("map", tid("string"), tid("string"))))
+    elif k == "unnamed" and ss:
+        m.params = [Param([], p.typ) for p in m.params] + [Param([], tid(ss[0]))]
+    return t.name
+
+
+def d_rest_two_maps(rng, c):
+    f, t = rest_target(rng, c)
+    m = rng.choice(rest_methods(t))
+    M = ("map", tid("string"), tid("string"))
+    m.params = [p for p in m.params if p.names]
+    m.params += rng.choice([[Param(["q1"], M), Param(["q2"], tstar(M))], [Param(["q1", "q2"], M)],
+                            [Param(["q1"], M), Param(["x"], tid("int")), Param(["q3"], ("map", tid("string"), tid("any")))]])
+    if rng.random() < 0.7:
+        m.doc = ("req", rng.choice(["Get", "DELETE", "get"]), m.doc[2])
     return t.name
 
 
@@ -1131,7 +1212,7 @@ PKG_DAMAGES = {
     "enum": [d_enum_alias, d_enum_nonint, d_enum_nonint, d_enum_struct_const, d_enum_bad_value, d_enum_bad_value,
              d_enum_undefined_type, d_enum_no_consts, d_enum_named_chain, d_type_wrong_kind],
     "rest": [d_rest_param, d_rest_param, d_rest_results, d_rest_results, d_rest_results, d_rest_bad_path, d_rest_ambiguous,
-             d_rest_doc, d_rest_embed, d_rest_embed, d_rest_wrong_kind],
+             d_rest_doc, d_rest_embed, d_rest_embed, d_rest_wrong_kind, d_rest_needs_body, d_rest_two_maps],
     "map": [d_map_manual, d_map_manual, d_map_manual, d_map_dest_type, d_map_dest_type, d_map_src_kind, d_map_dest_pkg,
             d_embed_named, d_embedded_universe],
 }
@@ -1414,6 +1495,57 @@ def s_extras(rng, c):
             c.extra["q7.%s.%s.go" % (cmd, "d" if k == "dir" else "l")] = ("dir",) if k == "dir" else ("dangling",)
 
 
+def add_history(rng, c):
+    """outputs left by EARLIER SUCCESSFUL runs of shoot in the package directory: per-type files, all-in-one files of
+    both kinds (-type=* and -file), of this and of another subcommand.  They are Go files of the package (header,
+    package clause, no declaration the analyses look at)."""
+    if not c.files:
+        return
+    cmd = "shoot" + c.sub
+    pkg = next((f.pkg for f in c.files if f.pkg), c.pkgname)
+    srcs = [f for f in c.files if f.raw is None]
+    if not srcs:
+        return
+    el = eligible(c) or ["Old"]
+    def tname(t):
+        return (t if t[:1].isupper() else "_" + t).lower()
+    entries = []
+    for _ in range(rng.randint(1, 4)):
+        k = rng.choice(["per_type", "per_type", "per_type", "aio_star", "aio_file", "other_sub", "per_type_gone"])
+        f = rng.choice(srcs)
+        base = f.name[:-3]
+        if k == "per_type":
+            t = rng.choice(el)
+            g = file_of(c, t)
+            base = g.name[:-3] if g is not None and g.raw is None else base
+            flags = rng.choice(["", "-getset ", "-json ", "-sep "]) if c.sub == "new" else ""
+            entries.append(("%s.%s.%s.go" % (base, cmd, tname(t)), "shoot %s %s-type=%s" % (c.sub, flags, t)))
+        elif k == "per_type_gone":
+            entries.append(("%s.%s.%s.go" % (base, cmd, rng.choice(["removed", "oldname"])), "shoot %s -type=%s" % (c.sub, "Removed")))
+        elif k == "aio_star":
+            entries.append(("%s.%s.go" % (base, cmd), "shoot %s -type=*" % c.sub))
+        elif k == "aio_file":
+            entries.append(("%s.%s.go" % (base, cmd), "shoot %s -file=%s" % (c.sub, f.name)))
+        else:
+            o = rng.choice([x for x in ("new", "enum", "rest", "map") if x != c.sub])
+            entries.append(("%s.shoot%s.%s.go" % (base, o, rng.choice(["user", "kind"])), "shoot %s -type=%s" % (o, "User")))
+    for name, cmdline in entries:
+        if any(f.name == name for f in c.files) or name in c.extra:
+            continue
+        line = '// Code generated by "%s"; DO NOT EDIT. (v0.6.9)' % cmdline
+        g = GoFile(name, pkg)
+        g.raw = line + "\n\npackage %s\n" % pkg
+        c.extra[name] = ("file", line, "\npackage %s\n" % pkg)
+        c.files.append(g)
+        c.stale = getattr(c, "stale", []) + [name]
+    c.files.sort(key=lambda f: f.name)
+    c.labels.append("history")
+
+
+# package damages after which generation fails whatever the selection mode (the type stays eligible for -file / -type=*)
+FAILING = {}
+
+
 def likely_outputs(c):
     cmd = "shoot" + c.sub
     sel = getattr(c, "sel", None)
@@ -1478,6 +1610,9 @@ def fix_param_names(c):
 
 
 BASES = {"new": base_new, "enum": base_enum, "rest": base_rest, "map": base_map}
+FAILING.update({"new": [d_exported_getset, d_local_shadow], "enum": [d_enum_bad_value],
+                "rest": [d_rest_param, d_rest_results, d_rest_bad_path, d_rest_ambiguous, d_rest_needs_body, d_rest_two_maps],
+                "map": [d_map_manual]})
 
 
 def _gen_case(rng, sub=None, ndamage=None):
@@ -1508,6 +1643,17 @@ def _gen_case(rng, sub=None, ndamage=None):
     for _ in range(nd):
         kinds.append(rng.choices(["pkg", "arg", "state"], [5, 4, 2])[0])
     must = None
+    hist = rng.random() < 0.45
+    if hist and rng.random() < 0.55 and eligible(c):
+        # a run that starts from the outputs of earlier successful runs and fails during generation
+        d = rng.choice(FAILING[sub])
+        if not (sub == "new" and pick_struct(rng, c)[1] is None):
+            r = d(rng, c)
+            c.labels.append(d.__name__)
+            if d is d_exported_getset and "-getset" not in c.flags:
+                c.flags.append("-getset")
+            if r is not None:
+                must = r
     for k in kinds:
         if k == "pkg" and PKG_DAMAGES[sub] and eligible(c):
             d = rng.choice(PKG_DAMAGES[sub])
@@ -1523,7 +1669,12 @@ def _gen_case(rng, sub=None, ndamage=None):
     choose_selection(rng, c, must)
     if getattr(c, "force_must", None) and c.sel[0] != "types" and rng.random() < 0.5:
         c.sel = ("types", [c.force_must])
+    if hist and rng.random() < 0.5:
+        c.sel = ("star", True)
+        c.sep = False
     assemble(rng, c)
+    if hist:
+        add_history(rng, c)
     for k in kinds:
         if k == "arg":
             d = rng.choice(ARG_DAMAGES["common"] + ARG_DAMAGES[sub] * 2)
